@@ -80,11 +80,15 @@ class Ctx:
         self.bounded_failures.append(dict(name=name, what=what, payload=payload, instance=instance))
 
     # -- verdict
-    def _known(self, name, cex_all, instance):
+    def _known(self, name, cex_all, instance, kwcex=None):
         for k in load_known().get('findings', []):
             if k.get('property') != self.prop: continue
-            if k.get('obligation') != name: continue
+            if 'obligation_regex' in k:
+                if not re.fullmatch(k['obligation_regex'], name): continue
+            elif k.get('obligation') != name: continue
             allowed = k.get('cex')
+            if allowed is not None and cex_all is None and kwcex is not None:
+                cex_all = [kwcex]
             if allowed is not None and cex_all is not None:
                 cur = [json.dumps(c, sort_keys=True) for c in cex_all]
                 alw = {json.dumps(c, sort_keys=True) for c in allowed}
@@ -119,7 +123,7 @@ class Ctx:
                            counterexample=r.cex, all_counterexamples=r.cex_all, meta=_jsonable(r.meta), solver_detail=r.detail,
                            smt2=r.smt2, replay=_jsonable(rp), replay_cmd=f'./vf replay {os.path.relpath(path, VERIF)}')
             with open(path, 'w') as f: json.dump(payload, f, indent=1, default=str)
-            k = self._known(r.name, r.cex_all, r.instance)
+            k = self._known(r.name, r.cex_all, r.instance, r.cex)
             if k is not None:
                 known_lines.append(f"KNOWN-FINDING: property={self.prop} {r.name}: {k.get('what', '')}")
                 known_used.append(dict(obligation=r.name, what=k.get('what', '')))
